@@ -574,7 +574,7 @@ PROPS["C20"] = c20
 # C03 process level: the real daemon, real SIGTERM / SIGINT (one or several), restore faults in
 # the driver; final-state oracle on the device files after the process has exited.
 
-def l2_basic_config(work, fans_yaml, extra=""):
+def l2_basic_config(work, fans_yaml, extra="", more_sensors="", more_curves=""):
     return """dbPath: {work}/fan2go.db
 runFanInitializationInParallel: true
 maxRpmDiffForSettledFan: 20
@@ -590,14 +590,14 @@ sensors:
     hwmon:
       platform: chipa
       index: 1
-curves:
+{more_sensors}curves:
   - id: lin
     linear:
       sensor: cpu
       min: 30
       max: 70
-fans:
-{fans}""".format(work=work, fans=fans_yaml, extra=extra)
+{more_curves}fans:
+{fans}""".format(work=work, fans=fans_yaml, extra=extra, more_sensors=more_sensors, more_curves=more_curves)
 
 
 def c03_l2_scenario(binary, work, idx, rng, merged):
@@ -610,10 +610,16 @@ def c03_l2_scenario(binary, work, idx, rng, merged):
     chip = tree.chip("chipa", fans=(1, 2), temps=(1,), orig_mode=orig_mode, orig_pwm=orig_pwm, rpm=1200, enable=has_enable)
     l2.write(os.path.join(sd, "filefan"), "%d\n" % orig_pwm)
     nfans = rng.choice([1, 2, 3])
+    # every 8th scenario ends regulation by a fatal control error instead of a signal: the first fan follows a PID curve
+    # (which reads its sensor itself) and that sensor becomes unreadable; the daemon gives up and has to hand back every fan
+    fatal = idx % 8 == 5
+    if fatal:
+        nfans = rng.choice([2, 3])
+        l2.write(os.path.join(sd, "board"), "45000\n")
     fans_yaml = ""
     devices = []
     for i in range(1, min(nfans, 2) + 1):
-        fans_yaml += "  - id: f%d\n    hwmon:\n      platform: chipa\n      rpmChannel: %d\n    neverStop: %s\n    curve: lin\n    controlAlgorithm: direct\n" % (i, i, rng.choice(["true", "false"]))
+        fans_yaml += "  - id: f%d\n    hwmon:\n      platform: chipa\n      rpmChannel: %d\n    neverStop: %s\n    curve: %s\n    controlAlgorithm: direct\n" % (i, i, rng.choice(["true", "false"]), "pidc" if fatal and i == 1 else "lin")
         devices.append(("hwmon", os.path.join(chip, "pwm%d" % i), os.path.join(chip, "pwm%d_enable" % i) if has_enable else None))
     if nfans == 3:
         fans_yaml += "  - id: ff\n    file:\n      path: %s/filefan\n    curve: lin\n    controlAlgorithm: direct\n" % sd
@@ -635,14 +641,20 @@ def c03_l2_scenario(binary, work, idx, rng, merged):
     sigs = [rng.choice([_signal.SIGTERM, _signal.SIGINT]) for _ in range(nsig)]
     gaps = [rng.choice([0.0, 0.005, 0.05, 1.0]) for _ in range(nsig - 1)]
     phase = rng.choice(["startup-wait", "analysis", "analysis-late", "first-second", "ticking", "ticking-late"])
+    more_sensors = more_curves = ""
+    if fatal:
+        phase = "fatal-sensor-error"
+        more_sensors = "  - id: board\n    file:\n      path: %s/board\n" % sd
+        more_curves = "  - id: pidc\n    pid:\n      sensor: board\n      setPoint: 50\n      p: -0.05\n      i: -0.005\n      d: -0.005\n"
     case = {"orig_mode": orig_mode, "orig_pwm": orig_pwm, "has_enable": has_enable, "fans": nfans, "mode_fault": mode_fault, "pwm_fault": pwm_fault,
             "signals": [int(s) for s in sigs], "gaps_s": gaps, "first_signal_phase": phase}
     cls = "mode%d:enable=%s:modeFault=%s:pwmFault=%s:signals=%d:phase=%s" % (orig_mode, has_enable, mode_fault, pwm_fault, nsig, phase)
     desktop = rng.choice(l2.DESKTOPS)
     case["desktop_session"] = desktop
-    d = l2.Daemon(binary, sd, l2_basic_config(sd, fans_yaml), tree.root, driver={"rules": rules, "plants": plants}, timescale=10, desktop=desktop)
+    d = l2.Daemon(binary, sd, l2_basic_config(sd, fans_yaml, more_sensors=more_sensors, more_curves=more_curves), tree.root, driver={"rules": rules, "plants": plants}, timescale=10, desktop=desktop)
     try:
         marker, delay = {
+            "fatal-sensor-error": (r"Starting controller loop", 0.4),
             "startup-wait": (r"Gathering sensor data", 0.05),
             "analysis": (r"starting initialization sequence|Computing pwm map", 0.05),
             "analysis-late": (r"Measuring RPM curve|Computing pwm map", 0.3),
@@ -658,6 +670,15 @@ def c03_l2_scenario(binary, work, idx, rng, merged):
             # needed, the final-state oracle applies all the same
             cls += ":daemon-stopped-on-its-own"
             merged.counters["l2_daemon_stopped_on_its_own"] = merged.counters.get("l2_daemon_stopped_on_its_own", 0) + 1
+        elif fatal:
+            time.sleep(delay)
+            l2.write_atomic(os.path.join(sd, "board"), "4x5\n")
+            if d.wait(30) is None:
+                # (an unreadable sensor of a PID curve ends the affected fan's controller and with it the daemon; should
+                # that ever change, the signals end the run)
+                cls += ":kept-running-after-the-error"
+                for s in sigs:
+                    d.signal(s)
         else:
             time.sleep(delay)
             for i, s in enumerate(sigs):
@@ -669,7 +690,13 @@ def c03_l2_scenario(binary, work, idx, rng, merged):
         merged.evaluations += 1
         replay = {"case": case, "output_tail": out[-3000:]}
         if rc is None:
-            merged.inconclusive.append("C03 L2 scenario %d: daemon still running 90 s after the first signal (%s)" % (idx, cls))
+            blk = d.locked_for_minutes()
+            if blk:
+                state = "; ".join("%s fan: mode %s pwm %s" % (kind, l2.read_int(en, -1) if en else None, l2.read_int(pwm, -1)) for kind, pwm, en in devices)
+                merged.add_violation("daemon-deadlocked-instead-of-handing-fans-back:" + cls.rsplit(":signals", 1)[0],
+                                     "still running 90 s after it was told to stop / gave up (%s); a goroutine has been waiting for a lock for minutes:\n%s\n%s" % (state, blk, cls), replay)
+            else:
+                merged.inconclusive.append("C03 L2 scenario %d: daemon still running 90 s after the first signal (%s)" % (idx, cls))
             return
         pm = l2.has_panic(out)
         if pm:
@@ -1006,26 +1033,37 @@ def c15_l2_scenario(binary, work, idx, rng, merged):
         extra += "    pwmMap:\n      0: 0\n      64: 128\n      192: 255\n"
     if min_max:
         extra += "    minPwm: 30\n    maxPwm: 220\n"
-    fans_yaml = ("  - id: f1\n    hwmon:\n      platform: chipa\n      rpmChannel: 1\n    neverStop: false\n    curve: lin\n    controlAlgorithm: direct\n" + extra +
-                 "  - id: ff\n    file:\n      path: %s/filefan\n    curve: lin\n    controlAlgorithm: direct\n" % sd + extra)
+    # the ids and the order of the entries are the user's choice (not sorted, not "first the hwmon fan")
+    ids = dict(zip(("f1", "ff"), rng.choice([("f1", "ff"), ("rear", "cpu"), ("zz_top", "a1"), ("b", "a"), ("Fan2", "fan10")])))
+    entries = ["  - id: %s\n    hwmon:\n      platform: chipa\n      rpmChannel: 1\n    neverStop: false\n    curve: lin\n    controlAlgorithm: direct\n" % ids["f1"] + extra,
+               "  - id: %s\n    file:\n      path: %s/filefan\n    curve: lin\n    controlAlgorithm: direct\n" % (ids["ff"], sd) + extra]
+    if rng.random() < 0.5:
+        entries.reverse()
+    if idx < 4 and re.findall(r"- id: (\S+)", "".join(entries)) == sorted(ids.values()):
+        entries.reverse()  # the first four scenarios: entries not in the order of their ids
+    fans_yaml = "".join(entries)
     cfg = l2_basic_config(sd, fans_yaml)
     pwm1 = os.path.join(chip, "pwm1")
     rpm1 = os.path.join(chip, "fan1_input")
     ff = os.path.join(sd, "filefan")
     driver = {"rules": [{"path": pwm1, "op": "w", "action": "quant", "val": 5}], "plants": []}
     ops = ["start"] + [rng.choice(["start", "start", "reset", "init"]) for _ in range(rng.randint(1, 3))] + ["start"]
-    case = {"pwmMap": pwm_map, "minMax": min_max, "ops": ops}
+    forced = None
+    if idx < 4:
+        # one `fan reset` / `fan init` of each fan between two starts
+        ops, forced = ["start", ["reset", "reset", "init", "init"][idx], "start"], ["f1", "ff", "f1", "ff"][idx]
+    case = {"pwmMap": pwm_map, "minMax": min_max, "ops": ops, "fan_ids_in_configuration_order": re.findall(r"- id: (\S+)", fans_yaml)}
     cls = "pwmMap=%s:minMax=%s" % (pwm_map, min_max)
     analysed = {"f1": False, "ff": False}
     trace = []
     for k, op in enumerate(ops):
         if op in ("reset", "init"):
-            which = rng.choice(["f1", "ff"])
+            which = forced or rng.choice(["f1", "ff"])
             dj = os.path.join(sd, "cli%d.driver.json" % k)
             l2.write(dj, json.dumps(dict(driver, log=os.path.join(sd, "cli%d.events" % k))))
             cfgp = os.path.join(sd, "cli.yaml")
             l2.write(cfgp, cfg)
-            rc, out = run_cli(binary, sd, cfgp, tree.root, ["fan", "--id", which, op], timeout=120, driver=dj)
+            rc, out = run_cli(binary, sd, cfgp, tree.root, ["fan", "--id", ids[which], op], timeout=120, driver=dj)
             if rc is None or l2.has_panic(out or ""):
                 merged.add_violation("cli-%s-crashes" % op, "%s\n%s" % (json.dumps(case), (out or "")[-1200:]), case)
                 return
@@ -1106,9 +1144,20 @@ def c09_l2_scenario(binary, work, idx, rng, merged):
     chip = tree.chip("chipa", fans=(1,), temps=(1,), orig_mode=orig_mode, orig_pwm=100, rpm=1200)
     l2.write(os.path.join(sd, "filefan"), "90\n")
     l2.write(os.path.join(sd, "filesensor"), "52000\n")
-    sensor_kind = rng.choice(["hwmon", "file"])
+    sensor_kind = rng.choice(["hwmon", "file", "cmd"])
     curve_kind = rng.choice(["linear", "pid", "function"])
-    sensor_yaml = "  - id: cpu\n    hwmon:\n      platform: chipa\n      index: 1\n" if sensor_kind == "hwmon" else "  - id: cpu\n    file:\n      path: %s/filesensor\n" % sd
+    if idx < 15:
+        # every faulted component meets every curve kind in the first 15 scenarios, a faulted sensor is of each backend once
+        curve_kind = ["linear", "pid", "function"][(idx // 5) % 3]
+        if idx % 5 == 0:
+            sensor_kind = ["hwmon", "cmd", "file"][(idx // 5) % 3]
+    # a command sensor: its script obeys a mode file (healthy: prints the value file)
+    l2.write(os.path.join(sd, "sensor.sh"), "#!/bin/sh\ncase \"$(cat %s/sensor.mode 2>/dev/null)\" in\nhang) sleep 5; cat %s/filesensor;;\nexit) echo oops >&2; exit 3;;\ngarbage) echo 1x2;;\nnan) echo NaN;;\n*) cat %s/filesensor;;\nesac\n" % (sd, sd, sd), 0o755)
+    sensor_yaml = {"hwmon": "  - id: cpu\n    hwmon:\n      platform: chipa\n      index: 1\n", "file": "  - id: cpu\n    file:\n      path: %s/filesensor\n" % sd,
+                   "cmd": "  - id: cpu\n    cmd:\n      exec: %s/sensor.sh\n" % sd}[sensor_kind]
+    # Prometheus scrapes read every sensor and fan themselves: another place where a read fails
+    scraped = sensor_kind == "cmd" or rng.random() < 0.4
+    p_stat = l2.free_port() if scraped else None
     curves_yaml = {"linear": "  - id: cv\n    linear:\n      sensor: cpu\n      min: 30\n      max: 70\n",
                    "pid": "  - id: cv\n    pid:\n      sensor: cpu\n      setPoint: 50\n      p: -0.05\n      i: -0.005\n      d: -0.005\n",
                    "function": "  - id: l1\n    linear:\n      sensor: cpu\n      min: 30\n      max: 70\n  - id: p1\n    pid:\n      sensor: cpu\n      setPoint: 50\n      p: -0.05\n      i: -0.005\n      d: -0.005\n"
@@ -1118,7 +1167,7 @@ fanResponseDelay: 0
 tempSensorPollingRate: 10ms
 rpmPollingRate: 10ms
 controllerAdjustmentTickRate: 10ms
-sensors:
+{stat}sensors:
 {sensors}curves:
 {curves}fans:
   - id: f1
@@ -1133,16 +1182,24 @@ sensors:
       path: {sd}/filefan
     curve: cv
     controlAlgorithm: direct
-""".format(sd=sd, sensors=sensor_yaml, curves=curves_yaml)
+""".format(sd=sd, sensors=sensor_yaml, curves=curves_yaml, stat="statistics:\n  enabled: true\n  port: %d\n" % p_stat if scraped else "")
     pwm1, en1, rpm1 = os.path.join(chip, "pwm1"), os.path.join(chip, "pwm1_enable"), os.path.join(chip, "fan1_input")
     sens = os.path.join(chip, "temp1_input") if sensor_kind == "hwmon" else os.path.join(sd, "filesensor")
     comp = rng.choice(["sensor", "rpm", "pwm-read", "pwm-write", "mode-write"])
+    if idx < 15:
+        comp = ["sensor", "rpm", "pwm-read", "pwm-write", "mode-write"][idx % 5]
     path, op = {"sensor": (sens, "r"), "rpm": (rpm1, "r"), "pwm-read": (pwm1, "r"), "pwm-write": (pwm1, "w"), "mode-write": (en1, "w")}[comp]
     kind = rng.choice(["eio", "empty", "garbage"]) if op == "r" else rng.choice(["eio", "eacces"])
+    cmd_fault = None
+    if comp == "sensor" and sensor_kind == "cmd":
+        # the command itself misbehaves (no device rule): hangs beyond its time limit, fails, prints garbage / NaN
+        cmd_fault = kind = "hang" if idx < 15 else rng.choice(["hang", "hang", "exit", "garbage", "nan"])
     # the initial analysis performs ~700 operations on the fan's files; faults are placed well inside regulation
     start = {"sensor": [150, 400], "rpm": [150, 300], "pwm-read": [1200, 2000], "pwm-write": [262, 270, 300], "mode-write": [60, 200]}[comp]
     start = rng.choice(start)
     length = rng.choice([1, 10, 0])
+    if idx < 15 and comp == "sensor":
+        length = [1, 10, 0][(idx // 5) % 3]
     rule = {"path": path, "op": op, "from": start}
     if length:
         rule["to"] = start + length - 1
@@ -1151,7 +1208,9 @@ sensors:
     else:
         rule.update(action="content", raw="" if kind == "empty" else "1x2\n")
     rules = [rule, {"path": pwm1, "op": "w", "action": "quant", "val": 5}]
-    case = {"sensor": sensor_kind, "curve": curve_kind, "fault": {"component": comp, "kind": kind, "from_operation": start, "length": length or "for good"}, "orig_mode": orig_mode}
+    if cmd_fault:
+        rules = rules[1:]
+    case = {"scraped": scraped, "sensor": sensor_kind, "curve": curve_kind, "fault": {"component": comp, "kind": kind, "from_operation": start, "length": length or "for good"}, "orig_mode": orig_mode}
     cls = "sensor=%s:curve=%s:%s/%s/%s" % (sensor_kind, curve_kind, comp, kind, "permanent" if not length else "window")
     desktop = rng.choice(l2.DESKTOPS)
     case["desktop_session"] = desktop
@@ -1163,17 +1222,33 @@ sensors:
                 return
         # let the fault window pass (operation counts, not time, place it; this only gives it room); the temperature
         # moves so that regulation keeps writing new PWM values
+        load = None
+        if scraped:
+            load = l2.HttpLoad(["http://127.0.0.1:%d/metrics" % p_stat], threads=2)
+            load.start()
         t_end = time.time() + 8.0
         k = 0
+        cmd_hit = False
         while time.time() < t_end and d.p.poll() is None:
             time.sleep(0.05)
             k += 1
             l2.write_atomic(sens, "%d\n" % (40000 + (k * 1700) % 30000))
+            if cmd_fault:
+                # placed by time: begins 0.5 s into regulation, lasts 0.3 s / 3 s (longer than the command time limit) / for good
+                if k == 10:
+                    l2.write_atomic(os.path.join(sd, "sensor.mode"), cmd_fault + "\n")
+                    cmd_hit = True
+                if length and k == 10 + (6 if length == 1 else 60):
+                    l2.write_atomic(os.path.join(sd, "sensor.mode"), "ok\n")
+                continue
             ev = d.events()
             n_path = sum(1 for e in ev if e["path"] == path and e["op"] == op)
             if n_path > start + max(length, 1) + 150:
                 break
         alive = d.p.poll() is None
+        if load:
+            counts, errs = load.finish()
+            merged.counters["l2_metrics_scrapes_during_faults"] = merged.counters.get("l2_metrics_scrapes_during_faults", 0) + sum(counts.values())
         if alive:
             d.signal(_signal.SIGTERM)
         rc = d.wait(90)
@@ -1181,14 +1256,18 @@ sensors:
         merged.evaluations += 1
         replay = {"case": case, "output_tail": out[-2500:]}
         if rc is None:
-            merged.inconclusive.append("C09 L2 scenario %d: daemon did not exit (%s)" % (idx, cls))
+            blk = d.locked_for_minutes()
+            if blk:
+                merged.add_violation("daemon-deadlocked-after-io-fault:" + cls, "still running 90 s after SIGTERM, fans not handed back (hwmon fan mode %s pwm %s); a goroutine has been waiting for a lock for minutes:\n%s\n%s" % (l2.read_int(en1, -1), l2.read_int(pwm1, -1), blk, json.dumps(case)), replay)
+            else:
+                merged.inconclusive.append("C09 L2 scenario %d: daemon did not exit (%s)" % (idx, cls))
             return
         pm = l2.has_panic(out)
         if pm:
             merged.add_violation("daemon-crashes-on-io-fault:" + cls, "%s\n%s" % (json.dumps(case), out[out.find(pm):][:1800]), replay)
             return
         events = d.events()
-        hit = any(e.get("action") in ("fail", "content") and e["path"] == path for e in events)
+        hit = cmd_hit or any(e.get("action") in ("fail", "content") and e["path"] == path for e in events)
         # final state (regulation has ended one way or the other)
         final_pwm, final_mode = l2.read_int(pwm1, -1), l2.read_int(en1, -1)
         ok = (final_mode == orig_mode and orig_mode != 1) or final_pwm == 255
